@@ -66,7 +66,7 @@ func genNewStoreCase(rt *rapid.T) NewStoreCase {
 		c.Fails[n] = rapid.SampledFrom([]int{0, 0, 0, 1, 2, 5, 13, 16, -1, -2}).Draw(rt, "fails-"+n)
 	}
 	c.Cache = rapid.SampledFrom([]string{"none", "valid", "valid", "valid", "invalid", "typeerr", "typeerr", "nullsib", "readerr"}).Draw(rt, "cache")
-	c.FailKind = rapid.SampledFrom([]string{"err", "err", "denied", "notfound"}).Draw(rt, "failkind")
+	c.FailKind = rapid.SampledFrom([]string{"err", "err", "denied", "notfound", "reqtimeout", "nettimeout"}).Draw(rt, "failkind")
 	c.PlainCtx = rapid.IntRange(0, 2).Draw(rt, "plainctx") == 0
 	c.Cached = rapid.SliceOfNDistinct(rapid.SampledFrom(append(append([]string{}, c10Pool...), "s1", "s2", "zz", "b2", "0first")), 0, 9, func(s string) string { return s }).Draw(rt, "cached")
 	c.Stale = rapid.Bool().Draw(rt, "stale")
@@ -134,6 +134,11 @@ func runC10Bubble(dir string, c NewStoreCase, info *h.Info) *h.Violation {
 				la = time.Now().Unix() - int64(c.StampAgo)
 			}
 			doc[n] = model.CacheEntry{Version: cachedVer, Value: []byte("cache-" + n), LastAccess: la}
+			if n == "zz" {
+				// an undeclared sibling whose value is the empty byte string: a legal value, a valid entry
+				doc[n] = model.CacheEntry{Version: cachedVer, Value: []byte{}, LastAccess: la}
+				info.Class("cache-holds-an-empty-valued-entry")
+			}
 		}
 		data := model.EncodeCache(doc)
 		switch c.Cache {
@@ -465,7 +470,7 @@ func runC10Bubble(dir string, c NewStoreCase, info *h.Info) *h.Violation {
 
 var c10 = &h.Campaign[NewStoreCase]{
 	Prop: "C10", Sub: "newstore",
-	Rule: "rapid + testing/synctest (virtual time): declared names (1-6 from a pool of 4, duplicates frequent, optionally two more through a tagged struct), cache class (none / valid with any subset of names, fresh or stale versions / syntactically invalid document / well-formed document with a wrongly typed sibling entry next to entries for declared names / Read error), per-name service script (k transient failures then success, hang until the context ends, permanent error; failures are a plain error, access-denied or not-found), context (background, deadline, cancelled at T, already cancelled; instants off the back-off grid), client kind (scripted service or FileClient holding any subset), misconfigurations (nil client, no names, an empty name first / in the middle / last); non-trivial = construction that needed >= 2 rounds with a partially valid cache, or ended by context expiry, or a FileClient lacking a declared secret; distinct by scenario",
+	Rule: "rapid + testing/synctest (virtual time): declared names (1-6 from a pool of 4, duplicates frequent, optionally two more through a tagged struct), cache class (none / valid with any subset of names, fresh or stale versions / syntactically invalid document / well-formed document with a wrongly typed sibling entry next to entries for declared names / Read error), per-name service script (k transient failures then success, hang until the context ends, permanent error; failures are a plain error, access-denied, not-found, a request-level timeout that wraps context.DeadlineExceeded while the caller's context is alive, or a timeout-class network error), context (background, deadline, cancelled at T, already cancelled; instants off the back-off grid), client kind (scripted service or FileClient holding any subset), misconfigurations (nil client, no names, an empty name first / in the middle / last); non-trivial = construction that needed >= 2 rounds with a partially valid cache, or ended by context expiry, or a FileClient lacking a declared secret; distinct by scenario",
 	Quick: 4000, Thorough: 2000000,
 	Gen:   genNewStoreCase,
 	Run:   runC10,
